@@ -42,6 +42,10 @@ def norm_text(node: ast.AST) -> str:
     return s if len(s) <= 160 else s[:157] + "..."
 
 
+# module-level names bound to a tuple of exception classes (filled while indexing; read by cfg.handler_classes)
+EXC_ALIASES: Dict[str, List[str]] = {}
+
+
 @dataclass
 class T:
     """A (very) small type: class qualified name + type arguments."""
@@ -233,6 +237,11 @@ class Program:
         self.classes: Dict[str, ClassInfo] = {}
         self.subclasses: Dict[str, List[ClassInfo]] = {}
         self.digest = ""
+        self.known: Optional[set] = None
+        kf = os.path.join(os.path.dirname(os.path.abspath(__file__)), "known_functions.txt")
+        if os.path.exists(kf):
+            with open(kf) as fh:
+                self.known = {l.strip() for l in fh if l.strip()}
         self._load()
         self._link()
 
@@ -292,6 +301,14 @@ class Program:
         for st in m.tree.body:
             if isinstance(st, ast.Assign) and len(st.targets) == 1 and isinstance(st.targets[0], ast.Name):
                 m.consts[st.targets[0].id] = st.value
+                # NAME = (ExcA, ExcB): a named tuple of exception classes usable in `except NAME:`
+                v = st.value
+                elts = v.elts if isinstance(v, ast.Tuple) else [v]
+                names = [dotted(e) for e in elts]
+                if names and all(n and n.split(".")[-1][:1].isupper() and
+                                 (n.endswith("Error") or n.endswith("Exception") or n.endswith("Iteration") or n.endswith("Interrupt"))
+                                 for n in names):
+                    EXC_ALIASES[st.targets[0].id] = [n for n in names if n]
             elif isinstance(st, ast.AnnAssign) and isinstance(st.target, ast.Name) and st.value is not None:
                 m.consts[st.target.id] = st.value
             elif isinstance(st, (ast.FunctionDef, ast.AsyncFunctionDef)):
@@ -802,6 +819,16 @@ class Program:
                         return True
             g = g.parent
         return False
+
+    def is_known(self, f: FunctionInfo) -> bool:
+        """Was this function part of the tree the rules were written against?  A function that is NOT known is a helper
+        introduced by a later edit: the engine treats it as transparent (inlined into its callers, sinks attributed to them)."""
+        if self.known is None:
+            return True
+        t = f
+        while t.parent is not None and isinstance(t.node, ast.Lambda):
+            t = t.parent
+        return t.qname in self.known
 
     # ----------------------------------------------------------- conveniences
     def fn(self, qname: str) -> FunctionInfo:
